@@ -18,6 +18,18 @@ func (v *FnVC) call(fr *frame, st *State, x ssa.CallInstruction) Val {
 		if cal := x.Common().StaticCallee(); cal != nil {
 			k := FuncKey(cal)
 			st.ghost["called#"+k] = tTrue
+			if v.w.Contracts.argObserved(k) {
+				// lastArg(f, i): the i-th operand (receiver first) of the most recent direct call of f
+				for ai, a := range x.Common().Args {
+					av := v.value(fr, a)
+					if _, isPtr := av.(PtrV); isPtr {
+						continue
+					}
+					for i, t := range flatten(v.scalarizeVal(av)) {
+						st.ghost[fmt.Sprintf("arg#%s#%d#%d", k, ai, i)] = t
+					}
+				}
+			}
 			if cal.Signature.Results().Len() > 0 {
 				if _, isPtr := res.(PtrV); !isPtr {
 					for i, t := range flatten(v.scalarizeVal(res)) {
@@ -277,12 +289,13 @@ func (v *FnVC) applyContract(fr *frame, st *State, con *Contract, callee *ssa.Fu
 			v.sc.Assert(Implies(reach, t))
 		}
 	}
-	if fr.top && callee == v.fn && con.Decreases != nil {
-		// termination: the measure is non-negative and strictly smaller at the recursive call
+	if fr.top && con.Decreases != nil && (callee == v.fn || (v.con != nil && v.con.Decreases != nil && v.w.reaches(callee, v.fn))) {
+		// termination: the measure is non-negative and strictly smaller at a (mutually) recursive call; every
+		// function of the cycle carries its own measure expression
 		envNew := &specEnv{v: v, fr: sub, st: pre, old: pre}
 		envOld := &specEnv{v: v, fr: fr, st: fr.entry, old: fr.entry}
 		mNew := envNew.eval(con.Decreases.Expr).V.(Sc).T
-		mOld := envOld.eval(con.Decreases.Expr).V.(Sc).T
+		mOld := envOld.eval(v.con.Decreases.Expr).V.(Sc).T
 		o := v.addObl("TERM", "decreases "+normText(con.Decreases.Text), x.Pos(), reach, And(Le(tZero, mNew), Lt(mNew, mOld)), con.Decreases.Props, "")
 		o.Clause = con.Decreases
 	}
@@ -326,7 +339,10 @@ func (v *FnVC) applyContract(fr *frame, st *State, con *Contract, callee *ssa.Fu
 func calleeShort(f *ssa.Function) string { return f.Name() }
 
 func (v *FnVC) applyIfaceContract(fr *frame, st *State, con *Contract, c *ssa.CallCommon, args []Val, x ssa.CallInstruction, rt types.Type) Val {
-	reach := fr.reach[fr.curBlock.Index]
+	reach := tTrue
+	if fr.curBlock != nil {
+		reach = fr.reach[fr.curBlock.Index]
+	}
 	if con.Pure {
 		name := "ifn#" + con.Key
 		var sorts []Sort
@@ -654,4 +670,39 @@ func isAncestor(anc, f *ssa.Function) bool {
 		}
 	}
 	return false
+}
+
+// reaches: b is reachable from a in the call graph (static and CHA edges)
+func (w *World) reaches(a, b *ssa.Function) bool {
+	if w.reachMemo == nil {
+		w.reachMemo = map[[2]*ssa.Function]bool{}
+	}
+	k := [2]*ssa.Function{a, b}
+	if r, ok := w.reachMemo[k]; ok {
+		return r
+	}
+	seen := map[*ssa.Function]bool{a: true}
+	work := []*ssa.Function{a}
+	res := false
+	for len(work) > 0 && !res {
+		f := work[len(work)-1]
+		work = work[:len(work)-1]
+		n := w.CG.Nodes[f]
+		if n == nil {
+			continue
+		}
+		for _, e := range n.Out {
+			g := e.Callee.Func
+			if g == b {
+				res = true
+				break
+			}
+			if !seen[g] {
+				seen[g] = true
+				work = append(work, g)
+			}
+		}
+	}
+	w.reachMemo[k] = res
+	return res
 }
